@@ -1235,7 +1235,7 @@ def gen_rerun(rnd, classes=None, dyn=None):
 
 
 def gen_genlimit(rnd):
-    return dict(mode='genlimit', limit=rnd.choice([None, 0, 1, 2, 3, 5]), asks=rnd.randint(0, 8), how=[rnd.choice(['generate', 'next', 'fresh', 'loop']) for _ in range(8)],
+    return dict(mode='genlimit', limit=rnd.choice([None, 0, 1, 2, 3, 5]), asks=rnd.randint(0, 8), how=[rnd.choice(['generate', 'next', 'fresh', 'loop', 'setgen']) for _ in range(8)],
                 fixed=rnd.random() < 0.5, seed=0, dyn='sto', procs=[])
 
 
@@ -1252,6 +1252,7 @@ def run_genlimit(spec):
     for i in range(spec['asks']):
         h = spec['how'][i]
         if h == 'generate': g = gen.generate()
+        elif h == 'setgen': g = gen.set({}).generate()          # the chained idiom of the experiment classes
         elif h == 'loop':                     # a for-loop over the generator left after its first network
             g = None
             for g_ in gen:
